@@ -2,6 +2,8 @@
 use crate::PropSpec;
 
 pub mod c01;
+pub mod c02;
+pub mod c02_corpus;
 pub mod c03;
 pub mod c05;
 pub mod c07;
@@ -10,11 +12,13 @@ pub mod c09;
 pub mod c10;
 pub mod c11;
 pub mod c12;
+pub mod c13;
 pub mod c14;
 pub mod c15;
+pub mod c20;
 pub mod progx;
 pub mod vmgraph;
 
 pub fn all() -> Vec<PropSpec> {
-    vec![c01::spec(), c03::spec(), c05::spec(), c07::spec(), c08::spec(), c09::spec(), c10::spec(), c11::spec(), c12::spec(), c14::spec(), c15::spec()]
+    vec![c01::spec(), c02::spec(), c03::spec(), c05::spec(), c07::spec(), c08::spec(), c09::spec(), c10::spec(), c11::spec(), c12::spec(), c13::spec(), c14::spec(), c15::spec(), c20::spec()]
 }
